@@ -573,7 +573,7 @@ fn main() {
     let mut w = CaseWriter::new(
         "From SwimV Require Import Model.Persist.\nOpen Scope N_scope.",
         "pcase",
-        &["p_corr_bad", "p_oracle_bad"],
+        &["p_corr_bad", "p_oracle_bad", "p_restart_bad"],
         args.shards,
     );
     let rt = tokio::runtime::Builder::new_current_thread().enable_all().build().unwrap();
